@@ -221,11 +221,12 @@ class Env:
             h(self, s)
         return s
 
-    def run(self, expr, **kw):
-        """Run one execution under the controller. Returns an id-free outcome tuple."""
+    def run(self, expr, reuse_scheduler=False, **kw):
+        """Run one execution under the controller. Returns an id-free outcome tuple.
+        reuse_scheduler: run on the Scheduler object of the previous run (a scheduler may be reused for several executions)."""
         from redun.scheduler import DryRunResult
 
-        s = self.new_scheduler()
+        s = self.schedulers[-1] if reuse_scheduler and self.schedulers else self.new_scheduler()
         self.ctl.Q.clear()
         self.ctl.F.clear()
         self.ctl.run_index = len(self.outcomes)
